@@ -328,6 +328,20 @@ func (s *Snapshot) String() string {
 		sb.WriteString(a + "=" + s.Burns[a])
 	}
 	sb.WriteString("] prop=" + s.Proposer + " ptot=" + s.PrevTot)
+	// the second denomination, only when somebody holds some
+	var b2 []string
+	for _, a := range sortedKeys(s.Bal) {
+		if x, ok := s.Bal[a][Denom2]; ok {
+			b2 = append(b2, a+"="+x.String())
+		}
+	}
+	if s2, ok := s.Supply[Denom2]; ok || len(b2) > 0 {
+		sup2 := "0"
+		if ok {
+			sup2 = s2.String()
+		}
+		sb.WriteString(" b2[" + strings.Join(b2, ",") + "] s2=" + sup2)
+	}
 	return sb.String()
 }
 
